@@ -60,22 +60,23 @@ Definition check (c : case) : N :=
           && plan_eqb (plan us 16 s dev) o_plan
           && zs_eqb (apply us 16 s dev pls) o_apply)
          (is_ok o_plan && negb (is_panic o_apply)
-          (* soundness *)
-          && (if in_range o_n dev || (negb us && (o_n <=? 256) && in_range 256 dev)
-              then zs_eqb o_apply (Ok tgt) else true)
+          (* soundness, for every device list (entries outside the plan are dropped by the
+             planner and ignored by apply); plans of more than 256 channels fail here: finding
+             C14-2, matched by its key (n=...) *)
+          && zs_eqb o_apply (Ok tgt)
           (* at most one payload per 16-channel block, plus one *)
-          && (if in_range o_n dev then Z.of_nat (List.length pls) <=? blocks 16 o_n + 1 else true)
-          (* nothing when the device already matches *)
-          && (if same_setb dev tgt then match pls with [] => true | _ => false end else true))
+          && (Z.of_nat (List.length pls) <=? blocks 16 o_n + 1)
+          (* nothing when the device already matches on the channels of the plan *)
+          && (if same_setb (known_channels o_n dev) tgt then match pls with [] => true | _ => false end else true))
   | CEnc o_n dev pls o_bytes o_back =>
     let ob := map (omap (map Z.of_N)) o_bytes in
     code (list_eqb bytesZ_eqb (map linkadrreq_marshal pls) ob
           && list_eqb (outcome_eqb payload_eqb)
                (map (fun o => match o with Ok b => linkadrreq_unmarshal b | _ => Err end) ob) o_back)
-         (if in_range o_n dev
-          then forallb encodable pls && forallb is_ok o_bytes
-               && list_eqb (outcome_eqb payload_eqb) o_back (map Ok pls)
-          else true)
+         (* every planned payload is encodable, for every device list; plans of more than 128
+            channels fail here: finding C14-1, matched by its key (n=...) *)
+         (forallb encodable pls && forallb is_ok o_bytes
+          && list_eqb (outcome_eqb payload_eqb) o_back (map Ok pls))
   | CApply cfg ops dev pls o_apply =>
     let s := run (cfg_st cfg) ops in
     code (zs_eqb (apply (us_style cfg) 16 s dev pls) o_apply) (negb (is_panic o_apply))
